@@ -107,6 +107,9 @@ def oracle_categorical(ctx: Ctx, case):
     ctx.check(bool(np.all((x >= 0) & (x < n))), "C15/sample-outside-support", tags=tags)
     ctx.close(lp, ref[x], "C15/sample-and-log-prob-mismatch", tags=tags, **TOL)
     _chi2(ctx, np.bincount(x, minlength=n), np.exp(ref), "C15/samples-do-not-follow-the-density", tags=tags)
+    x2 = np.asarray(_samples(d, _keys(case["key"] + 1)))
+    ctx.check(bool(np.all((x2 >= 0) & (x2 < n))), "C15/sample-outside-support", tags=tags, via="sample")
+    _chi2(ctx, np.bincount(x2, minlength=n), np.exp(ref), "C15/samples-do-not-follow-the-density", tags=tags, via="sample")
     zero = bool((np.exp(ref) == 0).any())
     ctx.count(nontrivial=zero or n >= 3, classes=["Categorical"] + ["zero_prob"] * zero + ["probs" if case.get("probs") is not None else "logits"], key=case)
 
@@ -173,8 +176,15 @@ def oracle_multicategorical(ctx: Ctx, case):
     x, lp = np.asarray(x), np.asarray(lp)
     ctx.check(x.shape == (NS, len(dims)) and all(bool(np.all((x[:, j] >= 0) & (x[:, j] < n))) for j, n in enumerate(dims)), "C15/sample-outside-support", tags=tags)
     ctx.close(lp, sum(r[x[:, j]] for j, r in enumerate(refs)), "C15/sample-and-log-prob-mismatch", tags=tags, **TOL)
-    for j, (n, r) in enumerate(zip(dims, refs)):
-        _chi2(ctx, np.bincount(x[:, j], minlength=n), np.exp(r), "C15/samples-do-not-follow-the-density", tags=tags, component=j)
+    x2 = np.asarray(_samples(d_flat, _keys(case["key"] + 1)))
+    for via, xs in (("sample_and_log_prob", x), ("sample", x2)):
+        for j, (n, r) in enumerate(zip(dims, refs)):
+            _chi2(ctx, np.bincount(xs[:, j], minlength=n), np.exp(r), "C15/samples-do-not-follow-the-density", tags=tags, component=j, via=via)
+        if len(dims) >= 2:
+            # independent components: the joint of the first two follows the product of the marginals
+            joint = np.zeros((dims[0], dims[1]))
+            np.add.at(joint, (xs[:, 0], xs[:, 1]), 1)
+            _chi2(ctx, joint.reshape(-1), np.outer(np.exp(refs[0]), np.exp(refs[1])).reshape(-1), "C15/product-law-components-not-independent", tags=tags, via=via)
     ctx.count(nontrivial=len(set(dims)) >= 2, classes=["MultiCategorical", f"components={len(dims)}"] + ["probs"] * use_probs, key=case)
 
 
@@ -204,6 +214,7 @@ def oracle_normal(ctx: Ctx, case):
     x, lp = _sample_lp(d0, _keys(case["key"]))
     ctx.close(lp, stats.norm.logpdf(np.asarray(x), l0, s0), "C15/sample-and-log-prob-mismatch", tags=tags, **TOL)
     _ks(ctx, x, stats.norm(l0, s0).cdf, "C15/samples-do-not-follow-the-density", tags=tags)
+    _ks(ctx, _samples(d0, _keys(case["key"] + 1)), stats.norm(l0, s0).cdf, "C15/samples-do-not-follow-the-density", tags=tags, via="sample")
     ctx.count(nontrivial=loc.ndim > 0 or l0 != 0.0, classes=["Normal", f"batch={list(loc.shape)}"], key=case)
 
 
@@ -279,12 +290,15 @@ def oracle_squashed(ctx: Ctx, case):
     ok = np.all(np.abs(xr) < 30, axis=-1) if multi else (np.abs(xr) < 30)
     tol = red(_sq_tol(xr, loc, scale))
     ctx.check(bool(np.all(np.abs(lp[inner] - red(ref))[ok] <= tol[ok])), "C15/sample-and-log-prob-mismatch", tags=tags, worst=float(np.max((np.abs(lp[inner] - red(ref)) - tol)[ok])) if ok.any() else 0.0)
+    x_plain = np.asarray(_samples(d, _keys(case["key"] + 1)), np.float64)
+    ctx.check(bool(np.all((x_plain >= low) & (x_plain <= high))), "C15/sample-outside-support", tags=tags, via="sample")
     comps = range(len(loc)) if multi else [None]
     for j in comps:
         l_, s_, lo_, hi_ = (loc[j], scale[j], low[j], high[j]) if multi else (float(loc), float(scale), float(low), float(high))
         xs = x[:, j] if multi else x
         cdf = lambda yy, l_=l_, s_=s_, lo_=lo_, hi_=hi_: stats.norm.cdf((special.logit(np.clip((yy - lo_) / (hi_ - lo_), 0, 1)) - l_) / s_)
         _ks(ctx, xs, cdf, "C15/samples-do-not-follow-the-density", tags=tags, component=j)
+        _ks(ctx, x_plain[:, j] if multi else x_plain, cdf, "C15/samples-do-not-follow-the-density", tags=tags, component=j, via="sample")
         # total mass over [low, high] incl. the Jacobian (1-D marginal through the public API)
         if multi:
             dj = SquashedNormal(jnp.asarray(l_), jnp.asarray(s_), high=jnp.asarray(hi_), low=jnp.asarray(lo_))
